@@ -143,7 +143,10 @@ def gen_plan(rng):
                                        ('wrong_sid', 7), ('wrong_user', 7),
                                        ('wrong_service', 5),
                                        ('wrong_key', 7), ('garbage', 5),
-                                       ('wrong_alg', 5), ('trailing', 4)]),
+                                       ('wrong_alg', 5), ('trailing', 4),
+                                       ('empty_sig', 6), ('missing_sig', 4),
+                                       ('half_sig', 4),
+                                       ('empty_inner_sig', 4)]),
                          wait])
         elif m == 'kbd':
             hist.append(['kbd', user, rng.choice(['right', 'wrong']), wait])
@@ -400,9 +403,20 @@ def build_pk(peer, user, keyname, mode):
 
     if mode == 'garbage':
         sig = string(alg) + string(bytes(64))
+    elif mode == 'empty_sig':
+        # "signature follows" is TRUE, the signature string has length 0
+        return auth_request(peer, user, b'publickey', body + string(b''))
+    elif mode == 'missing_sig':
+        # "signature follows" is TRUE, the packet ends after the key blob
+        return auth_request(peer, user, b'publickey', body)
+    elif mode == 'empty_inner_sig':
+        sig = string(alg) + string(b'')
     else:
         sig = sign(signer, sig_algs_for(signer)[0] if mode == 'wrong_key'
                    else alg, signed)
+
+    if mode == 'half_sig':
+        sig = sig[:len(sig) // 2]
 
     out = auth_request(peer, user, b'publickey', body + string(sig))
 
